@@ -153,12 +153,35 @@ def entry_case(rng, tmpdir, i):
         return fill_entry_case(rng, entry, schema, rows, ragged)
     if entry in ("setitem", "set_list_field"):
         return assign_entry_case(rng, entry, schema, rows, ragged)
+    # a special physical form for the constructor: every field a window of list arrays built over ONE shared offsets array,
+    # the windows shifted against each other (field j starts at row j): rectangular iff neighbouring rows have equal lengths
+    shared = None
+    if entry == "constructor" and (i // 28) % 2 == 1 and len(rows) >= 1:
+        nrow = len(rows)
+        k = len(schema)
+        base_len = rng.randint(0, 3)
+        lens = [base_len] * (nrow + k) if not ragged else [rng.randint(0, 3) for _ in range(nrow + k)]
+        if ragged and len(set(lens)) == 1:
+            lens[rng.randrange(len(lens))] += 1
+        if ragged and all(len({lens[r_ + j] for j in range(k)}) == 1 for r_ in range(nrow)):
+            ragged = False          # the shifted windows happen to agree
+        offs = pa.array(np.cumsum([0] + lens), type=pa.int32())
+        fields_pa = []
+        for j, (nm, ty) in enumerate(schema):
+            vals = pa.array([v for v in (gen.gen_value(rng, ty, 0.1) for _ in range(sum(lens)))], type=gen.TYPES[ty])
+            fields_pa.append(pa.ListArray.from_arrays(offs, vals).slice(j, nrow))
+        shared = pa.chunked_array([pa.StructArray.from_arrays(fields_pa, names=[nm for nm, _ in schema])])
+        rows = [{nm: fields_pa[j][r_].as_py() for j, (nm, _) in enumerate(schema)} for r_ in range(nrow)]
+        rows = [{nm: [core.child_values(pa.array(v, type=gen.TYPES[ty]))[q] for q in range(len(v))] for (nm, ty), v in zip(schema, r_.values())} for r_ in rows]
+        offered = rows
     no_nan = all(v == v for r in offered if r is not None for vs in r.values() if vs is not None for v in vs)
     import random as _random
     chunk_rng = _random.Random(rng.getrandbits(32))
 
     def run():
         if entry in ("constructor", "constructor_chunked"):
+            if shared is not None:
+                return NEA(shared)
             return NEA(struct_from_rows(rng, schema, offered, layout if entry == "constructor" else "split"))
         if entry == "from_sequence":
             return NEA.from_sequence([None if r is None else r for r in offered], dtype=NestedDtype(st))
@@ -206,7 +229,7 @@ def entry_case(rng, tmpdir, i):
     with Born() as born:
         res = attempt(run)
     # what the model sees: the struct-of-lists array handed to the constructor / validator
-    ph = core.phys(struct_from_rows(rng, schema, offered, "one"))
+    ph = core.phys(shared) if shared is not None else core.phys(struct_from_rows(rng, schema, offered, "one"))
     if entry in ("pack_lists", "from_lists"):
         want_rows = [r if r is not None else {k: [] for k in names} for r in rows]      # list columns have no missing rows
         ph = core.phys(struct_from_rows(rng, schema, [r if r is not None else {k: [] for k in names} for r in offered], "one"))
